@@ -3,5 +3,5 @@
 TIER=${1:-quick}; J=${2:-3}
 cd "$(dirname "$0")/.."
 ids=$(python3 -c "import json; print(' '.join(c['property_id'] for c in json.load(open('MANIFEST.json'))['checks']))")
-mkdir -p /tmp/runall
-printf "%s\n" $ids | xargs -P $J -I{} sh -c "( /usr/bin/time -f '%e s' /venv/bin/python harness/check.py {} --tier $TIER > /tmp/runall/{}.log 2>&1; echo \"{} exit=\$? \$(grep -c '^VIOLATION' /tmp/runall/{}.log) violations, \$(grep -c '^KNOWN-FINDING' /tmp/runall/{}.log) known, \$(tail -1 /tmp/runall/{}.log)\" )"
+L=$(mktemp -d /tmp/runall.XXXXXX)
+printf "%s\n" $ids | L=$L xargs -P $J -I{} sh -c "( /usr/bin/time -f '%e s' /venv/bin/python harness/check.py {} --tier $TIER > $L/{}.log 2>&1; echo \"{} exit=\$? \$(grep -c '^VIOLATION' $L/{}.log) violations, \$(grep -c '^KNOWN-FINDING' $L/{}.log) known, \$(tail -1 $L/{}.log)\" )"
